@@ -1159,6 +1159,28 @@ def stream_documents(ctx, acc, kdocs=None):
         {"en": CaptionList([Caption(S, 2 * S, [CaptionNode.create_text("t")], style={"class": "a&b"})])},
         styles={"a&b": {"class": "zz", "color": "white"}, "b": {"class": "c", "color": "red"}, "c": {"class": "c", "italics": True},
                 "d": {"class": "e", "font-size": "1c"}, "e": {}})))
+    # wave 7 (stream K): what prettify strips from a <p> string and how it sorts - Unicode white space at both ends of a
+    # caption, captions made of white space only, style values / ids / language codes that sort around ':' '_' and capitals
+    def edge_ws():
+        ws = ["\u2003", "\xa0", "\u3000", "\x85", "\t", " ", "\u2028", "\u200a", "\u1680", "\u205f", "\u202f"]
+        caps = []
+        for i in range(8):
+            a = "".join(rng.choice(ws) for _ in range(rng.randint(0, 3)))
+            b = "".join(rng.choice(ws) for _ in range(rng.randint(0, 3)))
+            body = rng.choice(["x", "a & b", "", "]]>", "<i>", "x" + rng.choice(ws) + "y"])
+            nodes = [CaptionNode.create_text(a + body + b)]
+            if rng.random() < 0.4:
+                nodes = [CaptionNode.create_text(a), CaptionNode.create_style(True, {"italics": True}), CaptionNode.create_text(body),
+                         CaptionNode.create_style(False, {"italics": True}), CaptionNode.create_text(b)]
+            if rng.random() < 0.3:
+                nodes.append(CaptionNode.create_break())
+                nodes.append(CaptionNode.create_text(b))
+            caps.append(Caption((i + 1) * S, (i + 2) * S, nodes, style={"class": rng.choice(["Z", "_a", "a:b", "z"])}))
+        return CaptionSet({rng.choice(["en", "x'y\"z", "A", "_"]): CaptionList(caps)},
+                          styles={"Z": {"color": "white", "font-family": "a'b"}, "_a": {"font-size": "1c", "text-align": "left"},
+                                  "a:b": {"class": "Z", "italics": True}, "z": {"display-align": "after", "class": "_a"}})
+    for _ in range(ctx.n(6, 60)):
+        sources.append(("api-edge-white-space", edge_ws))
     for src, mk in sources:
         cs = impl.call(mk)
         if not isinstance(cs, Ok):
